@@ -652,6 +652,15 @@ fn last_de<I: DoubleEndedIterator>(it: I, v: usize) -> Option<I::Item> {
         w => last_v(it, w),
     }
 }
+/// drops `guard` while the thread is unwinding from a panic raised (and caught) in client code; `resume_unwind` does not
+/// run the panic hook, `std::thread::panicking()` is true while the guard's `Drop` runs
+fn drop_by_unwinding<T>(guard: T) {
+    struct ClientPanic;
+    let _ = std::panic::catch_unwind(std::panic::AssertUnwindSafe(move || {
+        let _alive = guard;
+        std::panic::resume_unwind(Box::new(ClientPanic));
+    }));
+}
 fn variant(ncalls: usize, idx: usize) -> usize { ncalls * 7 + idx * 3 + 1 }
 
 fn run_calls<T, I>(it: I, cs: &[Call], forget: bool, rev_ok: bool, show: impl Fn(&T) -> String) -> String
@@ -925,6 +934,11 @@ pub fn apply<H: HX>(q: &mut AnyQ<H>, op: &Op, lk: Lookup) -> String {
             s
         }
         IterMut { forget, late, prog } => {
+            // every third dropped guard is dropped by UNWINDING out of the client's loop body (a panic in the client's own code
+            // while the guard is alive, caught by the client): `Drop for IterMut` must rebuild then too.  Chosen from the program
+            // text, so replays are exact; never while a fuse is armed (a second panic during unwinding aborts by Rust's rules).
+            let via_unwind = !*forget && !*late && prog.len() % 3 == 1 && FUSE.with(|f| f.get()) == 0 && CBFUSE.with(|f| f.get()) == 0
+                && HKFUSE.with(|f| f.get()) == 0 && CLFUSE.with(|f| f.get()) == 0 && DRFUSE.with(|f| f.get()) == 0;
             let mut out = String::new();
             // addresses of everything yielded so far: two equal addresses = aliased `&mut`
             let mut addrs: Vec<usize> = vec![];
@@ -965,7 +979,7 @@ pub fn apply<H: HX>(q: &mut AnyQ<H>, op: &Op, lk: Lookup) -> String {
                             _ => out.push_str(" u"),
                         }
                     }
-                    if let Some(it) = slot { if *forget { std::mem::forget(it); } else { drop(it); } }
+                    if let Some(it) = slot { if *forget { std::mem::forget(it); } else if via_unwind { drop_by_unwinding(it); } else { drop(it); } }
                 }
                 AnyQ::Dpq(x) => {
                     let mut slot = Some(if VIA_REF.with(|v| v.get()) { (&mut *x).into_iter() } else { x.iter_mut() });
@@ -986,7 +1000,7 @@ pub fn apply<H: HX>(q: &mut AnyQ<H>, op: &Op, lk: Lookup) -> String {
                             Call::C => write!(out, " l {}", count_de(slot.take().unwrap(), v)).unwrap(),
                         }
                     }
-                    if let Some(it) = slot { if *forget { std::mem::forget(it); } else { drop(it); } }
+                    if let Some(it) = slot { if *forget { std::mem::forget(it); } else if via_unwind { drop_by_unwinding(it); } else { drop(it); } }
                 }
             }
             for ((i, p), w) in kept { w.apply(i, p); }
